@@ -149,6 +149,8 @@ CRASH_ASSUME = ['fault model of the property: process death keeps every written 
                 'TLC explores the mechanism model exhaustively only for the bounded constants listed in mc_runs']
 
 def crash_sig(e):
+    if e.get('ev') == 'io':
+        return ('io', e.get('kind'), e.get('d'), e.get('x'))
     if e.get('ev') == 'crashrec':
         return ('crashrec', e.get('proc'), e.get('open'), e.get('label', '').split(':')[0], e.get('cont', {}).get('did'), e.get('clean'))
     if e.get('ev') == 'call':
@@ -327,7 +329,27 @@ CONSTANTS
 INVARIANTS {Invs}
 CHECK_DEADLOCK FALSE
 '''
-def lin_sig(e):
+class LinSig:
+    """distinct histories = distinct (label, order of call/return events) per key; plus (call, outcome) pairs"""
+    def __init__(self):
+        self.cur = None
+    def __call__(self, e):
+        ev = e.get('ev')
+        if ev == 'reset':
+            self.cur = [e.get('label', '')]
+            return None
+        if ev in ('call', 'ret') and self.cur is not None:
+            self.cur.append((ev, e.get('c'), e.get('op')))
+            return ('ret', e.get('op'), e.get('err')) if ev == 'ret' else None
+        if ev == 'final' and self.cur is not None:
+            h = hash(tuple(self.cur)); n = len(self.cur); self.cur = None
+            return ('history', h) if n > 3 else None      # a history with at most one call is trivial
+        if ev == 'cop':
+            return ('cop', e.get('op'), e.get('err'))
+        return None
+lin_sig = LinSig()
+
+def lin_sig_old(e):
     if e.get('ev') == 'reset':
         return ('history', e.get('label', '').split(':')[0], e.get('label', '').split('/')[-1])
     if e.get('ev') == 'ret':
@@ -343,7 +365,7 @@ PROPS['C08'] = dict(
              quick=dict(Clients='{"a", "b", "c"}'), thorough=dict(Clients='{"a", "b", "c", "d"}'))],
     traces=[dict(profile='conc', spec='LinTrace', enforce=[], sig=lin_sig, deterministic=False,
                  quick_seeds=1, thorough_seeds=2, tlc_timeout=2400)],
-    rule='distinct (schedule kind, forced scenario) of recorded histories and distinct (call, outcome) pairs; each history is a different interleaving; trivial = none',
+    rule='distinct per-key histories (label + order of call/return events; histories with at most one call are trivial and not counted) plus distinct (call, outcome) pairs',
     assumptions=['call/return order = a global atomic counter taken by the client immediately before the call and after the return (never wall-clock time)',
                  'linearizability is checked per key (it is a local property); TLC places the unlogged linearization points',
                  'forced schedules: a blocking hook parks client A at a schedule point while B runs; an interleaving the locks forbid is not explored (gate timeout), and time never produces a verdict',
